@@ -409,3 +409,57 @@ def rule_recursion(rep, rid, tu, tree_base=None, min_reachable=40):
     for f in sorted(reach):
         rep.analysed(cg.nodes[f].sig, tu)
     return cycles
+
+
+def lexer_number(idx, ns, lo, hi):
+    """Interpret <ns>::Lexer::getNextToken on a decimal literal whose numeric value n (as std::strtoul delivers it) ranges over
+    [lo, hi].  Returns ('value', IV of the lexer's value member, token) or ('throws', what); raises NeedSplit when a branch
+    depends on where n lies in the class."""
+    lex_cls = ns + '::Lexer'
+    tokens = idx.enum(ns + '::Token')
+    script = _Script([ord('7')])
+    N = IV(64, False, lo, hi, None, 'input', ({'N': 1}, 0) if lo != hi else None)
+
+    def hooks(I, n, kind, name, did, obj, args, env):
+        t = (dqt(obj) + ' ' + qt(obj)) if obj is not None else ''
+        if kind == 'function' and name in ('isspace', 'isalpha', 'isalnum', 'isdigit', 'isxdigit'):
+            v = I.expr(args[0], env)
+            if not (isinstance(v, IV) and v.concrete()):
+                raise NeedSplit(None, 'character class of a non-concrete value')
+            s_ = chr(v.lo) if 0 <= v.lo < 128 else ''
+            r = {'isspace': s_ in ' \t\n\r\v\f' and s_ != '', 'isalpha': s_.isalpha(), 'isalnum': s_.isalnum(), 'isdigit': s_.isdigit(),
+                 'isxdigit': s_ in '0123456789abcdefABCDEF' and s_ != ''}[name]
+            return const(32, True, 1 if r else 0)
+        if kind == 'function' and name in ('strtoul', 'strtoull', 'stoul', 'stoull'):
+            return N
+        if kind == 'method' and name == 'get' and 'istream' in t and args:
+            lv = I.lval(args[0], env)
+            if script.chars:
+                I.store(lv, const(8, True, script.chars.pop(0)), env)
+                script.eof = False
+            else:
+                script.eof = True
+            return None
+        if kind == 'method' and name == 'eof':
+            return const(1, False, 1 if getattr(script, 'eof', False) else 0)
+        if kind == 'method' and name in ('close', 'is_open'):
+            return const(1, False, 1)
+        if n['kind'] == 'CXXOperatorCallExpr' and name in ('operator->', 'operator*'):
+            return I.expr(args[0], env)
+        if kind == 'method' and name == 'get' and 'unique_ptr' in t:
+            return I.expr(obj, env)
+        if kind == 'method' and name in ('lookup', 'insert') and 'Table' in t:
+            return const(32, True, tokens.get('IDENTIFIER', 0)) if name == 'lookup' else None
+        return NotImplemented
+    I = ivinterp.Interp(idx, hooks, max_iter=40)
+    lex = Obj(lex_cls, {'table': Obj(ns + '::Table', {}, 'table'), 'file': Obj('std::istream', {}, 'file'), 'lastChar': const(8, True, 0),
+                        'identifier': ('str', ''), 'string': ('str', ''), 'value': const(32, False, 0), 'lastToken': const(32, True, 0),
+                        'currentLineNumber': const(64, False, 0), 'currentCharNumber': const(64, False, 0), 'currentLine': ('str', '')}, 'lexer')
+    rc = [m for m in idx.record(lex_cls).methods if m.name == 'readChar'][0]
+    f = idx.func(lex_cls + '::getNextToken')
+    try:
+        I.invoke(rc, lex, [])
+        tk = I.invoke(f, lex, [])
+    except Thrown as e:
+        return ('throws', e.what)
+    return ('value', lex.fields.get('value'), tk, list(I.ub))
